@@ -10,7 +10,7 @@ on the real interpreter.
 import copy, json
 from vlib import MachineryError
 
-FAMILIES = ['assign', 'cond', 'loop', 'concat', 'call', 'const', 'pattern', 'flow', 'misc', 'fracconst', "builtins2", "valuetype"]
+FAMILIES = ['assign', 'cond', 'loop', 'concat', 'call', 'const', 'pattern', 'flow', 'misc', 'fracconst', "builtins2", "valuetype", "multidim"]
 
 
 def corrupt(case, rnd):
@@ -41,7 +41,7 @@ def run(ctx):
                 'the families assign (7 lvalue kinds x 11 operations x 5 expression positions x initial values), cond (6 '
                 'comparisons x 11x11 operand kinds x 10 control-flow spellings), loop, flow (loop nests x jump statements x '
                 'positions x contexts), concat (all groupings of 2-5 operands), call, const, pattern, misc (sub/gsub on every target '
-                'kind, delete, exit/return forms, bare regexes, printf, builtins); or one random program '
+                'kind, delete, exit/return forms, bare regexes, printf, builtins), multidim (subscript lists x SUBSEP values x operand kinds, each also spelled as the concatenation it stands for); or one random program '
                 'recorded from the real interpreter; distinct by content; every case is non-trivial (it executes the '
                 'mechanism named in its "mech" field)')
     ctx.assumptions += [
